@@ -22,6 +22,7 @@ inductive Val where
   | bool (b : Bool)
   | str (s : Nat)
   | flt (twice : Int)       -- `FactValue::Float(twice / 2)`: halves are exact in f64, so no rounding is modelled
+  | null                    -- `FactValue::Null`: equal to itself only, no float value
 deriving Repr, DecidableEq
 
 /-- `FactValue::as_float`, scaled by two (integers and exact half-integer floats) -/
@@ -35,7 +36,7 @@ inductive Cmp where
 deriving Repr, DecidableEq
 
 /-- `FactValue::compare` on the typed core: `==`/`!=` structural (so `Integer(1) ≠ Float(1.0)`); ordering
-through `as_float` (integers and floats compare numerically across the two representations — booleans and
+through `as_float` (integers and floats compare numerically across the two representations — booleans, nulls and
 non-numeric strings have no float value: `<`,`>` are false, `<=`,`>=` fall back to `==`) -/
 def Val.compare (a : Val) (op : Cmp) (b : Val) : Bool :=
   match op with
@@ -338,5 +339,46 @@ def Engine.step (e : Engine) : Op → Engine × Res
 def Engine.run (e : Engine) : List Op → Engine
   | [] => e
   | o :: os => Engine.run (e.step o).1 os
+
+/-! ### `GrlReteLoader` (`src/rete/grl_loader.rs`) on the typed core
+
+A rule of the typed core written as GRL text (`rule "R" salience p [no-loop] { when <node> then <T.f = literal;>* [retract(T);] }`)
+and loaded by `load_from_string`: `convert_condition_group` maps `Single` ↦ `UlAlpha`, `Compound And/Or` ↦ `UlAnd`/`UlOr` and
+`Not(inner)` ↦ `UlNot(convert inner)` — the negation stays a node of its own, it is NOT folded into the comparison (a
+comparison on an absent / null / non-numeric field is false, so its negation is true, whereas the complementary comparison is
+false as well).  `create_action_closure` executes `Set` as `facts.set` and `Retract` through the matched handle, which is what
+`writeBack` / `fireOne` model.  The one thing the text round trip changes is a float literal with an integral value:
+`value_to_string(Value::Number(15.0))` prints "15", which the alpha node parses back as `Integer(15)`, and
+`value_to_fact_value(Value::Number(15.0))` stores `Integer(15)` (`n.fract() == 0.0`). -/
+
+/-- a literal after the trip through GRL text and the loader -/
+def loaderVal : Val → Val
+  | .flt t => if t % 2 == 0 then .int (t / 2) else .flt t
+  | v => v
+
+/-- `convert_condition_group` / `convert_condition` -/
+def loaderNode : Node → Node
+  | .alpha ty f op (.lit v) => .alpha ty f op (.lit (loaderVal v))
+  | .alpha ty f op (.var t2 f2) => .alpha ty f op (.var t2 f2)
+  | .and l r => .and (loaderNode l) (loaderNode r)
+  | .or l r => .or (loaderNode l) (loaderNode r)
+  | .not n => .not (loaderNode n)
+
+/-- `convert_rule_to_rete`: name, salience, no-loop are copied -/
+def loaderRule (r : Rule) : Rule :=
+  { r with node := loaderNode r.node,
+           action := { r.action with sets := r.action.sets.map (fun kv => (kv.1, loaderVal kv.2)) } }
+
+/-- literals that the round trip leaves alone -/
+def Val.grlExact : Val → Bool
+  | .flt t => t % 2 != 0
+  | _ => true
+
+def Node.grlExact : Node → Bool
+  | .alpha _ _ _ (.lit v) => v.grlExact
+  | .alpha _ _ _ (.var _ _) => true
+  | .and l r => l.grlExact && r.grlExact
+  | .or l r => l.grlExact && r.grlExact
+  | .not n => n.grlExact
 
 end C06
